@@ -268,6 +268,7 @@ class _decode_quoted:
     params = {"self": OBJ(DECODER), "triple": MSG("RdfTriple")}
     # rdflib has no quoted-triple term: its adapter refuses (NotImplementedError) after the nested terms were decoded
     variants = [{}, {"self": OBJ(DECODER + "@r"), "$never_returns": True}]
+    shards = 2
     result = ADTS("gterm")
     modifies = ["self.names.last_reused_index", "self.names.T", "self.prefixes.last_reused_index", "self.prefixes.T",
                 "self.datatypes.last_reused_index", "self.datatypes.T"]
@@ -408,6 +409,7 @@ class _decode_statement:
     the previous term of that slot, and the call raises exactly when the spec calls the row invalid (flat terms; a quoted
     slot is opaque, see decode_quoted_triple)."""
     params = {"self": OBJ(DECODER), "statement": MSG("RdfTriple"), "oneofs": CONSTV(Tup(("subject", "predicate", "object")))}
+    shards = 4      # one worker per variant
     _Q = {"statement": MSG("RdfQuad"), "oneofs": CONSTV(Tup(("subject", "predicate", "object", "graph")))}
     variants = [{}, dict(_Q), {"self": OBJ(DECODER + "@r")}, {"self": OBJ(DECODER + "@r"), **_Q}]
     result = staticmethod(lambda e: LISTOF(ADTS("gterm"), len(e.oneofs.items)))
@@ -648,6 +650,7 @@ def _iter_rows(adapter_shape: str, extra_mod: list) -> Any:
 
 _IR = _iter_rows("@triples", ["self.adapter._graph_id"])
 _IR.variants = [{"self": OBJ(DECODER + sfx + k)} for sfx in ("@", "@r") for k in ("triples", "quads", "graphs")]
+_IR.shards = 6
 contract(f"{PD}:Decoder.iter_rows", serves=["C04", "C16", "C07", "C10", "C02"])(_IR)
 
 
